@@ -173,6 +173,22 @@ pub fn run(kv: &Args) -> i32 {
     for (k, it) in insts.iter().enumerate() {
         jobs.push(Job { inst: k, kind: "honest".into(), detail: String::new(), msg: it.honest.clone(), expect: Expect::AcceptHonest, adv: None, model: true });
     }
+    // an honest instance whose seed set has special key VALUES at known (non-punctured) leaves, the same on both sides:
+    // all-zero and all-one keys (only its honest message is used)
+    {
+        let mut sid = vec![0u8; 32];
+        r.fill_bytes(&mut sid);
+        let (mut sseed, mut rseed, sname) = seed_set(5, seed, 2200, &mut r);
+        for (tree, key) in [(0usize, [0u8; 32]), (9, [0u8; 32]), (63, [0xffu8; 32])] {
+            let leaf = (rseed.random_choices[tree] as usize + 1 + tree % 5) % 16;
+            sseed.otp_enc_keys[tree][leaf] = key;
+            rseed.otp_dec_keys[tree][leaf] = key;
+        }
+        let (choices, cname) = choice_vector(6, &mut r);
+        let mut tape = [0u8; SB];
+        r.fill_bytes(&mut tape);
+        insts.push(make_inst(&format!("inst-special-keys[sid32,{sname},{cname}]"), sid, sseed, rseed, choices, tape));
+    }
     let n_main = degenerate;
     // ---- single-bit flips: 3 fields x N positions (model + real)
     let per_field = if thorough { 128 } else { 64 };
